@@ -139,23 +139,44 @@ func runC17(o Opts) error {
 
 	// results must not alias the driver's receive buffers: discovery through the REAL driver, where several replies are
 	// collected before any is decoded (socket-level stream shared with C11)
-	if o.Replay == "" {
+	if s.ReplayWants("net-") {
 		netC11(s, o.Tier)
 	}
 
 	// cloning: equal value, no shared mutable storage
 	for i := 0; i < 200; i++ {
 		doors := map[uint8]uint8{1: r.Byte(), 2: r.Byte(), 3: r.Byte(), 4: r.Byte()}
+		switch i % 5 { // also partial, empty (non-nil) and nil maps
+		case 1:
+			doors = map[uint8]uint8{2: r.Byte()}
+		case 2:
+			doors = map[uint8]uint8{}
+		case 3:
+			doors = nil
+		}
 		c := types.Card{CardNumber: genCardNo(r), From: types.Date(civilDate(2024, 1, 1)), To: types.Date(civilDate(2024, 12, 31)), Doors: doors, PIN: types.PIN(r.Intn(1000000))}
 		k := c.Clone()
 		if fmt.Sprintf("%v", k) != fmt.Sprintf("%v", c) {
 			s.Fail(map[string]any{"op": "Card.Clone", "card": fmt.Sprintf("%v", c)}, "clone differs from the original")
 		}
-		before := fmt.Sprintf("%v", k)
-		c.Doors[1]++
-		c.Doors[4] = 99
-		if fmt.Sprintf("%v", k) != before {
-			s.Fail(map[string]any{"op": "Card.Clone", "card": fmt.Sprintf("%v", c)}, "clone shares the doors map with the original")
+		before := deepSnap(k)
+		if c.Doors != nil {
+			c.Doors[1]++
+			c.Doors[4] = 99
+		}
+		if deepSnap(k) != before {
+			s.Fail(map[string]any{"op": "Card.Clone", "card": deepSnap(c)}, "clone shares the doors map with the original (writing to the original changed the clone)")
+		}
+		beforeC := deepSnap(c)
+		if k.Doors != nil {
+			k.Doors[2] = 77
+			k.Doors[3]++
+		}
+		if deepSnap(c) != beforeC {
+			s.Fail(map[string]any{"op": "Card.Clone", "card": deepSnap(c)}, "clone shares the doors map with the original (writing to the clone changed the original)")
+		}
+		if k2 := c.Clone(); fmt.Sprintf("%v", k2) != fmt.Sprintf("%v", c) { // equal as far as the permissions of doors 1..4 go
+			s.Fail(map[string]any{"op": "Card.Clone", "card": deepSnap(c)}, "a second clone differs from the original")
 		}
 		d := uhppote.Device{Name: "d", DeviceID: genID(r), Doors: []string{"a", "b", "c", "d"}, TimeZone: time.UTC, Protocol: "udp"}
 		dk := d.Clone()
